@@ -299,6 +299,10 @@ def py_config(spec, **over):
 
     c = spec["config"]
     kw = dict(common_subexpression_elimination=c["cse"], innovation_filtering=c["innov"], max_dt_sec=c["max_dt"])
+    if spec.get("ufun"):
+        import numpy as np
+
+        kw["python_modules"] = tuple(python.DEFAULT_MODULES) + ({"verif_sat": lambda v: np.tanh(v) / 2},)
     kw.update(over)
     return python.Config(**kw)
 
